@@ -3,6 +3,7 @@ import Bch.Drive.C01
 import Bch.Drive.C03
 import Bch.Drive.C06
 import Bch.Drive.C05
+import Bch.Drive.C11
 open Bch.Drive
 
 def dispatch (id : String) : Option Runner :=
@@ -14,6 +15,10 @@ def dispatch (id : String) : Option Runner :=
   | "C06" => some C06.run
   | "C04" => some C04.run
   | "C05" => some C05.run
+  | "C09" => some C09.run
+  | "C10" => some C10.run
+  | "C11" => some C11.run
+  | "C12" => some C11.run
   | _ => none
 
 def handle (line : String) : String :=
@@ -26,7 +31,10 @@ def handle (line : String) : String :=
       | some r =>
         match r op args impl with
         | none => "BAD\tbad-case\t-"
-        | some o => (if o.model == impl then "EQ" else "DIFF") ++ "\t" ++ o.prop ++ "\t" ++ o.model
+        | some o =>
+          let eq := o.model == impl
+          let prop := if o.prop == "spec" then (if eq then "ok" else "violated:differs from the specified value") else o.prop
+          (if eq then "EQ" else "DIFF") ++ "\t" ++ prop ++ "\t" ++ o.model
     | _ => "BAD\tbad-line\t-"
   | _ => "BAD\tbad-line\t-"
 
